@@ -76,7 +76,7 @@ MEASURED = [
 
 # ------------------------------------------------------------------ history operations
 HIST_OPS = ['np_seed0', 'np_seed7', 'np_consume', 'gen_other_seed', 'gen_global', 'gen_other_model', 'rej_same',
-            'compile_twice']
+            'compile_twice', 'sub_seed_other']
 
 
 def do_hist_op(op, bs):
@@ -100,6 +100,10 @@ def do_hist_op(op, bs):
     elif op == 'rej_same':
         m, d, e = models.build('M1')
         elfi.Rejection(m, d, batch_size=bs, seed=11).sample(2, n_sim=2 * bs, bar=False)
+    elif op == 'sub_seed_other':
+        # what BOLFI chain seeding and external operations do: a derived seed for another master seed, no cache given
+        from elfi.utils import get_sub_seed
+        get_sub_seed(97, 0)
     elif op == 'compile_twice':
         m, d, e = models.build('M2')
         c = elfi.client.get_client()
